@@ -187,7 +187,8 @@ RWOverwrite(e, pos, n) ==
     /\ st = "open" /\ hnd = <<>> /\ elems[e].kind = "ext" /\ pos + n <= elems[e].len
     \* (the library re-opens a stream that was opened read-only by the STORED name, without the search list: where that
     \*  is another place than the rules name, the write is refused -- visibly; generated only where both agree)
-    /\ LET dr == Resolve(elems[e].name, elems[e].form) IN dr \in {"none", "c"} \/ elems[e].form = "abs"
+    /\ LET dr == Resolve(elems[e].name, elems[e].form) IN
+         dr = "none" \/ (elems[e].form = "abs" /\ dr = "a") \/ (elems[e].form = "rel" /\ dr = "c")
     /\ LET el == elems[e]  d == Payload(wc + 1, n)  dir == Resolve(el.name, el.form) IN
        IF dir = "none"
        THEN /\ Log("RWOverwrite", [e |-> e, pos |-> pos, data |-> d], [ret |-> FAIL, rd |-> ReadOut(ReadVal(e))])
